@@ -343,6 +343,22 @@ func checkC19(c *Ctx, r *Report) {
 					}
 				}
 			}
+			// the value travels in a struct member or another local on its way into the map: the constant true is boxed
+			// in the branch that does not parse a value
+			if mi, ok := in.(*ssa.MakeInterface); ok {
+				if b, isb := ConstBool(mi.X); isb && b {
+					parses := false
+					for _, ci := range CallsTo(fn, parseValue, false) {
+						pb := ci.(ssa.Instruction).Block()
+						if pb == mi.Block() || pb.Dominates(mi.Block()) || reachableFromEdge(nil, pb, mi.Block(), nil) {
+							parses = true
+						}
+					}
+					if !parses {
+						foundTrue = true
+					}
+				}
+			}
 		})
 	}
 	if !foundParse {
@@ -350,6 +366,37 @@ func checkC19(c *Ctx, r *Report) {
 	}
 	r.Check(foundTrue, "R19d", c.FnName(nfkv), "bare key is true", c.Pos(nfkv.Pos()), "constant true flows into the value stored under the key", "no path stores the constant true as the value of a bare key")
 	loaderNormalisesRule(c, r)
+	addNilConfigRule(c, r)
+}
+
+// addNilConfigRule (R19f): the loaders answer an ignored argument (`key=`) with no config and no error (R19d), so
+// Collector.Add must treat a nil config as "nothing to merge". Merge's own nil test does not see a nil *Config
+// inside its interface{} parameter: it reports an unsupported type, and the collector keeps that as its sticky error.
+func addNilConfigRule(c *Ctx, r *Report) {
+	r.Rule("R19f", "Collector.Add merges the config it is given only when that config is not nil", 1)
+	add := c.Method("cfgutil", "Collector", "Add")
+	mergeFn := c.Method("", "Config", "Merge")
+	var cfgParam *ssa.Parameter
+	for _, p := range add.Params[1:] {
+		if typeStr(p.Type()) == "*ucfg.Config" {
+			cfgParam = p
+		}
+	}
+	n := 0
+	for _, ci := range CallsTo(add, mergeFn, false) {
+		n++
+		guarded := false
+		for _, cd := range ExpandConds(DomConds(ci.(ssa.Instruction).Block())) {
+			if tv, neq, ok := nilTest(cd.V); ok && tv == ssa.Value(cfgParam) && cd.Truth == neq {
+				guarded = true
+			}
+		}
+		r.Check(guarded, "R19f", c.FnName(add), "merge under cfg != nil", c.Pos(ci.Pos()), "dominated by cfg != nil",
+			"Collector.Add hands a possibly nil *Config to Merge: the loaders return a nil config for an argument they ignore (`key=`), Merge does not recognise the nil pointer inside its interface{} parameter and fails, and every later argument is dropped behind the collector's sticky error")
+	}
+	if n == 0 {
+		r.add("R19f", c.FnName(add), "merge under cfg != nil", c.Pos(add.Pos()), Undecided, true, "Collector.Add does not call Merge")
+	}
 }
 
 // loaderNormalisesRule (R19e): the config a flag loader returns for an argument is made by ucfg.NewFrom (or
